@@ -275,6 +275,7 @@ def app_check(ctx, prop, props_v, theorems, codes, pred, extra_assume, known_cla
         "distinct_nontrivial": agg.get("DistinctNontrivial", 0),
         "rule": "histories of %d blocks generated online against the real node from one PRNG (all native transaction types, ~40%% invalid: nonce/price/gas/funds/signature/chain/payload/authorisation; evidence, missed votes, governance); plus hand-written corpus histories; compared: %s; predicate %s evaluated on the implementation's and on the model's observations. %s" % (nb, codes, pred, nontrivial_rule or "non-trivial = the history contains at least one block with validator updates"),
         "evm_effects_checked_against_contract": getattr(ctx, "effects_checked", 0),
+        "perturbed_node_traces_judged": agg.get("JudgedPerturbed", 0),
         "blocks": agg.get("Blocks", 0), "transactions": agg.get("Txs", 0), "succeeded": agg.get("Succeeded", 0), "failed": agg.get("Failed", 0),
         "distribution": agg.get("ByNote", {}), "corpus": agg.get("Corpus", []), "generator_errors": agg.get("Errors", []),
         "samples": [sample[i:i + 1500]],
